@@ -320,6 +320,17 @@ func (x *approvex) runCaseTag(sp *space, idx int64, a, b core.Files, tag string)
 				return nil
 			}
 		}
+		// A device that prints an equivalent configuration in its own
+		// spelling prints it that way again after every approve; if the tool
+		// sees a difference there, no second compare is ever silent (the
+		// model keeps the spelling it was given, so this needs its own test).
+		if sp.name == "spell" && len(script) > 0 && !multipart {
+			if eq, _ := ciscomodel.SemEqual(ciscomodel.Load(a.Main, ios), tb, scope); eq {
+				x.violation(sp, idx, a, b, script, 0, "second-compare-silent", tag+"spelling-not-recognised",
+					"the device holds the target in its own spelling, but changes are emitted; the device will print the same spelling after the approve, so every compare reports changes again")
+				return nil
+			}
+		}
 		// second compare must be silent
 		prints := []string{m.Print()}
 		if ios {
